@@ -92,9 +92,11 @@ func SignWith(dir string, wrap func(lake.Pool) lake.Pool) (*tlc.Container, []wsy
 
 // DiffOut is the result of a diff.
 type DiffOut struct {
-	Patch, Sig []byte
-	Ctx        *pwr.DiffContext
-	Old, New   *tlc.Container
+	Patch2, Sig2                   []byte
+	Fresh, Reused, Fresh2, Reused2 int64
+	Patch, Sig                     []byte
+	Ctx                            *pwr.DiffContext
+	Old, New                       *tlc.Container
 }
 
 // DiffOpts lets a check wrap the source pool / writers.
@@ -102,7 +104,10 @@ type DiffOpts struct {
 	// TargetSig, when set, is a signature stream describing the old build (as written by the diff that
 	// released it); it is read back with pwr.ReadSignature and used instead of signing oldDir directly -
 	// the way butler diffs against a downloaded signature.
-	TargetSig   []byte
+	TargetSig []byte
+	// Again: WritePatch is called a second time on the same DiffContext (a retry on a new writer, the same
+	// diff emitted once more); DiffOut.Patch2/Sig2 and the counters' deltas Fresh2/Reused2 describe that call.
+	Again       bool
 	WrapPool    func(lake.Pool) lake.Pool
 	PatchWriter func(io.Writer) io.Writer
 	SigWriter   func(io.Writer) io.Writer
@@ -153,7 +158,16 @@ func Diff(oldDir, newDir string, comp Comp, opts *DiffOpts) (*DiffOut, error) {
 	if err := dctx.WritePatch(context.Background(), pw, sw); err != nil {
 		return nil, fmt.Errorf("WritePatch: %w", err)
 	}
-	return &DiffOut{Patch: pb.Bytes(), Sig: sb.Bytes(), Ctx: dctx, Old: tc, New: sc}, nil
+	out := &DiffOut{Patch: pb.Bytes(), Sig: sb.Bytes(), Ctx: dctx, Old: tc, New: sc, Fresh: dctx.FreshBytes, Reused: dctx.ReusedBytes}
+	if opts != nil && opts.Again {
+		pb2, sb2 := new(bytes.Buffer), new(bytes.Buffer)
+		if err := dctx.WritePatch(context.Background(), pb2, sb2); err != nil {
+			return nil, fmt.Errorf("second WritePatch on the same DiffContext: %w", err)
+		}
+		out.Patch2, out.Sig2 = pb2.Bytes(), sb2.Bytes()
+		out.Fresh2, out.Reused2 = dctx.FreshBytes-out.Fresh, dctx.ReusedBytes-out.Reused
+	}
+	return out, nil
 }
 
 func Source(b []byte) savior.SeekSource { return seeksource.FromBytes(b) }
